@@ -55,6 +55,9 @@ def schema_from_seed(seed):
     t_ref = None
     if tk:
         t_ref = {"mjd": round(float(g.uniform(50000, 59000)), 6), "scale": ["tcb", "utc"][tk % 2], "format": ["mjd", "jd", "isot"][tk % 3]}
+        if g.random() < 0.15:
+            # simulated data whose times are bare numbers starting at 0 have their reference epoch at BMJD 0
+            t_ref = {"mjd": 0.0, "scale": "tcb", "format": "mjd"}
     # a library drawn in single precision (prior.sample(dtype=float32)) is stored as such
     return {"poly": poly, "noff": noff, "cols": cols, "units": units, "t_ref": t_ref,
             # all columns double, all single, or a mixture (columns assigned one by one may differ in precision)
